@@ -654,3 +654,35 @@ impl Hash for CollidingElem {
         7u8.hash(state)
     }
 }
+
+/// A new-side item type that differs from the old-side type (`u32`): it compares by value
+/// with `u32`, but hashes differently (legal: no cross-type hashing contract is documented for
+/// the diff algorithms; each side is hashed on its own).
+#[derive(Debug, Clone, Copy, PartialEq, Eq, PartialOrd, Ord)]
+pub struct WideId(pub u64);
+
+impl Hash for WideId {
+    fn hash<H: Hasher>(&self, state: &mut H) {
+        (self.0 ^ 0xdead_beef_0000_0001).hash(state);
+        0x5au8.hash(state);
+    }
+}
+
+impl PartialEq<u32> for WideId {
+    fn eq(&self, other: &u32) -> bool {
+        self.0 == *other as u64
+    }
+}
+
+/// A new-side item type whose comparison with the old-side `u32` items is a TOLERANCE
+/// (|a - b| <= 1): coarser than each side's own `Eq` and not transitive.  Legal for every
+/// entry point: only `New::Output: PartialEq<Old::Output>` is required of the cross comparison.
+#[derive(Debug, Clone, Copy, PartialEq, Eq, PartialOrd, Ord, Hash)]
+pub struct Tol(pub u32);
+
+impl PartialEq<u32> for Tol {
+    #[inline]
+    fn eq(&self, other: &u32) -> bool {
+        (self.0 as i64 - *other as i64).abs() <= 1
+    }
+}
